@@ -256,11 +256,13 @@ def _bare_loader(entries, relpath):
 SAVE_RELPATHS = ('sub/Manifest', 'sub/Manifest.gz', 'Manifest')
 
 
-def k_save_size(path: str, rp: int, sort: bool, plen: int = 1):
+def k_save_size(path: str, rp: int, sort: bool, plen: int = 1, shape: int = 0):
     import gemato.recursiveloader as rl
     if 'open_potentially_compressed_path' not in rl.__dict__:
         raise RuntimeError('seam gemato.recursiveloader.open_potentially_compressed_path gone')
     relpath = SAVE_RELPATHS[rp]
+    # shape: the free character alone, after, or before a fixed ASCII character
+    path = (path, 'a' + path, path + 'a')[shape]
     ld = _bare_loader([mk('DATA', path, 7, MD5='00'), mk('IGNORE', 'b')], relpath)
     made = []
 
@@ -281,7 +283,7 @@ def k_save_size(path: str, rp: int, sort: bool, plen: int = 1):
     return ok and ret == nbytes, nbytes != nchars
 
 
-def k_save_size_pre(path: str, rp: int, sort: bool, plen: int = 1):
+def k_save_size_pre(path: str, rp: int, sort: bool, plen: int = 1, shape: int = 0):
     if not (len(path) == plen and 0 <= rp < len(SAVE_RELPATHS)):
         return False
     if path[0] == '/':
@@ -301,7 +303,8 @@ def k_save_size_real(a):
     d = tempfile.mkdtemp(prefix='vf-c13-')
     try:
         os.mkdir(os.path.join(d, 'sub'))
-        ld = _bare_loader([mk('DATA', a['path'], 7, MD5='00'), mk('IGNORE', 'b')], relpath)
+        path = (a['path'], 'a' + a['path'], a['path'] + 'a')[a.get('shape', 0)]
+        ld = _bare_loader([mk('DATA', path, 7, MD5='00'), mk('IGNORE', 'b')], relpath)
         ld.root_directory = d
         ret = ld.save_manifest(relpath, sort=a['sort'])
         fn = os.path.join(d, relpath)
@@ -358,19 +361,22 @@ def conditions(tier):
                            group='K', twin=(rp == 1),
                            descr='want_compressed_manifest of the three profiles vs the '
                                  'documented rule', bounds='any size, any watermark'))
-    for rp, plen in [(0, 1), (1, 1), (2, 1)] + ([(0, 2)] if full else []):
-        c = Cond(f'k_save_size_r{rp}' + ('_l2' if plen == 2 else ''),
-                 specialise(k_save_size, rp=rp, plen=plen),
-                 specialise(k_save_size_pre, rp=rp, plen=plen),
-                 timeout=600 if plen == 1 else 3000, group='K',
+    for rp, shape in [(0, 0), (1, 0), (2, 0)] + ([(0, 1), (0, 2)] if full else []):
+        c = Cond(f'k_save_size_r{rp}' + ('', '_after', '_before')[shape],
+                 specialise(k_save_size, rp=rp, plen=1, shape=shape),
+                 specialise(k_save_size_pre, rp=rp, plen=1, shape=shape),
+                 timeout=600, group='K',
                  descr='real save_manifest + real ManifestFile.dump into a text handle that '
                        'counts UTF-8 bytes: the size returned to save_manifests (the value '
                        'compared with the watermark) is the number of bytes of the '
                        'uncompressed content, for any file name',
-                 bounds='one DATA entry with a symbolic path of one (thorough: also two) arbitrary characters '
-                        '(any code point except surrogates, which no file name can hold) + '
-                        'one IGNORE entry; plain and .gz sub-Manifest, top-level; sort on/off')
-        c.replay_real = (lambda a, _rp=rp: k_save_size_real({**a, 'rp': _rp}))
+                 bounds='one DATA entry whose path is one arbitrary character (any code '
+                        'point except surrogates, which no file name can hold) - thorough: '
+                        'also after and before a fixed ASCII character - + one IGNORE entry; '
+                        'plain and .gz sub-Manifest, top-level; sort on/off; two free '
+                        'characters did not finish in 3000 s and are not claimed')
+        c.replay_real = (lambda a, _rp=rp, _sh=shape: k_save_size_real(
+            {**a, 'rp': _rp, 'shape': _sh}))
         cs.append(c)
     cs.append(Cond('k_suffix', k_suffix, k_suffix_pre, timeout=300, group='K',
                    descr='get_compressed_suffix_from_filename: by suffix only, exact case',
